@@ -780,6 +780,9 @@ class World:
             uid = P.parse_client_info(fr.payload)["uid"]
             seen = self.closed_uids.setdefault(m.idx, set())
             if t == P.MT_CLIENT_CLOSED:
+                if uid in seen:
+                    self.viol("closed/duplicate", f"conn {m.idx} received a second CLIENT_CLOSED notice for the connection with uid {uid} "
+                              f"({P.parse_client_info(fr.payload)})")
                 seen.add(uid)
             elif uid in seen:
                 self.viol("closed/announced-after-closed", f"conn {m.idx} received CLIENT_INFO for the connection with uid {uid} "
